@@ -302,7 +302,7 @@ func runC07Adv(r *Run, seed int64, c c07Adv) {
 func TestC07(t *testing.T) {
 	r := newRun(t, "C07", "fault_enumeration")
 	defer r.Finish()
-	r.Rule = "(i) crash-point enumeration over both maker roles × both chains with an honest peer (victim killed at every boundary crossing before/after the effect, restarted, drained past the CSV); (ii) scripted takers: silence, cancel, invalid message, coop_close with wrong / malformed / short / zero / third-party keys, cancel then coop_close, coop_close after CSV, each × injected faults (height lookup failing right after the wallet broadcast, refund broadcast failing 5×, announcement send failing) × wallet output orderings (swap output at index 0-2), followed by CSV maturity, restarts and timers. Oracle: committed record names the broadcast tx and the index of its swap output; terminal only if paid or own spend accepted by the chain; refund on chain after the drain. distinct = (chain, role, adversity, final state, paid, own spend)"
+	r.Rule = "(i) crash-point enumeration over both maker roles × both chains with an honest peer (victim killed at every boundary crossing before/after the effect, restarted, drained past the CSV); (ii) scripted takers: silence, cancel, invalid message, coop_close with wrong / malformed / short / zero / third-party keys, cancel then coop_close, coop_close after CSV, each × injected faults (height lookup or wallet labelling call failing right after the wallet broadcast, refund broadcast failing 5×, announcement send failing) × wallet output orderings (swap output at index 0-2), followed by CSV maturity, restarts and timers. Oracle: committed record names the broadcast tx and the index of its swap output; terminal only if paid or own spend accepted by the chain; refund on chain after the drain. distinct = (chain, role, adversity, final state, paid, own spend)"
 	r.Assumptions = []string{"reference watcher (W-det) watches the announced (txid, vout) like the real RPC watcher, so a wrong index shows as a refund that never matures", "bounded restatement of 'whenever the CSV matures ... the node broadcasts the refund': after 4 rounds of blocks, restarts and timers"}
 	// (i)
 	pts := 0
@@ -317,6 +317,17 @@ func TestC07(t *testing.T) {
 		c07Judge(r, h.p.w, h.victim, h.p.chainObj(), h.c.chain, h.victimRole(), h.p.id, cause, true, "case "+h.c.String())
 	}
 	pts = lcSweepRoles(r, []string{"btc", "lbtc"}, true, judge)
+	if r.Thorough() {
+		// other worlds; drains that begin with a restart; histories whose claim payment fails (the taker asks for
+		// the cooperative close and the maker has to claim with both keys)
+		lcSeedOffset = 1_000_003
+		pts += lcSweepRoles(r, []string{"btc", "lbtc"}, true, judge)
+		lcSeedOffset, c07RestartFirst = 2_000_003, true
+		pts += lcSweepRoles(r, []string{"btc", "lbtc"}, true, judge)
+		lcSeedOffset, c07RestartFirst, c07PayFail = 3_000_003, false, true
+		pts += lcSweepRoles(r, []string{"btc", "lbtc"}, true, judge)
+		lcSeedOffset, c07PayFail = 0, false
+	}
 	r.Extra["crash_points_enumerated"] = pts
 	// (ii)
 	var adv []c07Adv
@@ -334,16 +345,33 @@ func TestC07(t *testing.T) {
 			}
 		}
 	}
-	parallelDo(len(adv), 12, func(i int) { runC07Adv(r, r.Seed*2903+int64(i)+1, adv[i]) })
-	r.Extra["adversarial_histories"] = len(adv)
+	reps := r.N(1, 4) // thorough: every adversarial history in four worlds (amounts, keys)
+	parallelDo(len(adv)*reps, 12, func(i int) { runC07Adv(r, r.Seed*2903+int64(i)+1, adv[i%len(adv)]) })
+	r.Extra["adversarial_histories"] = len(adv) * reps
 	ho, _ := r.Extra["histories_with_opening_tx"].(int)
 	r.Sample(map[string]any{"case": "lbtc out/receiver, taker sends coop_close with a third-party key after a cancel, swap output at index 2", "expectation": "maker ends in ClaimedCsv with its CSV refund accepted by the chain"})
 	r.Require(ho >= 100, fmt.Sprintf("only %d histories had an opening transaction", ho))
 	_ = bytes.Equal
 }
 
+// thorough-tier variations of lcSweepRoles
+var c07RestartFirst, c07PayFail bool
+
 // lcSweepRoles is lcSweep restricted to maker victims, with the drain.
 func lcSweepRoles(r *Run, chains []string, makersOnly bool, judge func(h *lcHist)) int {
+	variant := "happy"
+	var setup func(h *lcHist)
+	if c07PayFail {
+		variant = "payfail"
+		setup = func(h *lcHist) {
+			h.p.w.LN.Script = func(payer string, inv *sim.Invoice, n int) sim.Outcome {
+				if inv.Type == 1 {
+					return sim.OutFail
+				}
+				return sim.OutSettle
+			}
+		}
+	}
 	type combo struct{ chain, typ, victim string }
 	var combos []combo
 	for _, ch := range chains {
@@ -353,8 +381,8 @@ func lcSweepRoles(r *Run, chains []string, makersOnly bool, judge func(h *lcHist
 	var cases []lcCase
 	parallelDo(len(combos), 8, func(i int) {
 		cb := combos[i]
-		c := lcCase{chain: cb.chain, typ: cb.typ, victim: cb.victim, variant: "happy", drain: true}
-		h := lcRun(r.Seed*733+int64(i)+1, c, nil)
+		c := lcCase{chain: cb.chain, typ: cb.typ, victim: cb.victim, variant: variant, drain: true, restartFirst: c07RestartFirst}
+		h := lcRun(r.Seed*733+lcSeedOffset+int64(i)+1, c, setup)
 		r.Eval()
 		judge(h)
 		mu.Lock()
@@ -374,7 +402,7 @@ func lcSweepRoles(r *Run, chains []string, makersOnly bool, judge func(h *lcHist
 	})
 	parallelDo(len(cases), 12, func(i int) {
 		c := cases[i]
-		h := lcRun(r.Seed*733+int64(i)+20_000, c, nil)
+		h := lcRun(r.Seed*733+lcSeedOffset+int64(i)+20_000, c, setup)
 		h.c.name = c.name
 		r.Eval()
 		r.CountIn("crash_points_by_op", c.name)
